@@ -1026,6 +1026,14 @@ func (s *sink) handleReqRespBatch(
 	// work sequentially; if this is not the first batch then an error
 	// happened and this later batch is no longer a part of a seq chain.
 	if !batch.isOwnersFirstBatch() {
+		// We skip the result, but it still says whether the broker
+		// appended (or may have appended) this batch. The batch will
+		// be resent behind the earlier batch being retried: as below,
+		// a retryable error on that resend must not fail records that
+		// are already in the log.
+		if rp.ErrorCode == 0 || rp.ErrorCode == kerr.RequestTimedOut.Code || rp.ErrorCode == kerr.NotEnoughReplicasAfterAppend.Code {
+			batch.unsureIfProduced = true
+		}
 		if debug {
 			if err := kerr.ErrorForCode(rp.ErrorCode); err == nil {
 				if nrec > 0 {
